@@ -56,7 +56,7 @@ def judgeCtl (body : List String) : List String :=
     let cmds := pre.filter (fun l => (toks l).head? == some "cmd")
     let sts := pre.filter (fun l => (toks l).head? == some "st")
     let hasBp := cmds.any fun l => match toks l with
-      | _ :: k :: _ => k == "BT" || k == "BC" || k == "BK" || k == "HP" || k == "P"
+      | _ :: k :: _ => k == "BT" || k == "BC" || k == "BK" || k == "HP"
       | _ => false
     if hasBp || cmds.length != sts.length then ["ok"]
     else
